@@ -78,8 +78,8 @@ func c19Plain(src string, timeout time.Duration) (stdout, end, result string) {
 	return out.String(), yaegiEnd(err), c19Result(v)
 }
 
-// c19Trace runs the program plainly with instrumented closures. pregen mimics the order in which
-// SetBreakpoints generates closures when line breakpoints are requested.
+// c19Trace runs the program plainly with instrumented closures. pregen: the real SetBreakpoints is
+// run first with a line request (on a detached Debugger value), as in a session with line requests.
 func c19Trace(src string, pregen bool, timeout time.Duration) (steps []interp.VerifC19Step, dump []interp.VerifC19Node, stdout, end string) {
 	var out, errb bytes.Buffer
 	i := c19NewInterp(&out, &errb)
@@ -94,7 +94,7 @@ func c19Trace(src string, pregen bool, timeout time.Duration) (steps []interp.Ve
 		mu.Unlock()
 	})
 	if pregen {
-		interp.VerifC19PreGen(prog)
+		interp.VerifC19SetLineBreakpoints(i, prog, []int{1})
 	}
 	ctx, cancel := context.WithTimeout(context.Background(), timeout)
 	defer cancel()
@@ -206,8 +206,24 @@ func c19Debug(src string, lines []int, funcs []string, reqs []c19Req, timeout ti
 	if h := issue(); h != "" {
 		return finish(h)
 	}
+	waited := make(chan struct{})
+	go func() {
+		dbg.Wait()
+		close(waited)
+	}()
+	var grace <-chan time.Time
 	for {
 		select {
+		case <-waited:
+			// the session's context is done; the terminate event is delivered right after
+			waited = nil
+			grace = time.After(2 * time.Second)
+		case <-grace:
+			v, err := dbg.Wait()
+			res.Stdout, res.End, res.Result = out.String(), yaegiEnd(err), c19Result(v)
+			res.Dump = interp.VerifC19Dump(prog)
+			res.Hang = "the session ended without a terminate event"
+			return res
 		case ev := <-evch:
 			res.Events = append(res.Events, ev)
 			switch ev.Reason {
